@@ -1006,9 +1006,18 @@ impl<Tr: ?Sized + TrOps, M: BackOps> World<Tr, M> {
                            let mut raw = unsafe { AnyValueRaw::new(NonNull::from(&mut *x).cast::<u8>(), std::mem::size_of::<T>(), TypeId::of::<T>()) };
                            lib!(e.swap(&mut raw)); ManuallyDrop::into_inner(x) }
                     9 => { let mut e = lib!(vv.at_mut(i)); let mut wr = AnyValueWrapper::new(T::new()); lib!(wr.swap(&mut *e)); wr.downcast::<T>().unwrap() }
-                    _ => { let mut e = lib!(vv.at_mut(i)); let mut x = ManuallyDrop::new(T::new());
+                    10 => { let mut e = lib!(vv.at_mut(i)); let mut x = ManuallyDrop::new(T::new());
                            let mut raw = unsafe { AnyValueRaw::new(NonNull::from(&mut *x).cast::<u8>(), std::mem::size_of::<T>(), TypeId::of::<T>()) };
                            lib!(raw.swap(&mut *e)); ManuallyDrop::into_inner(x) }
+                    // the unchecked accessors (the index / type preconditions are established by the harness)
+                    11 => { assert!(i < vv.len(), "index out of range");
+                            let mut e = unsafe { lib!(vv.get_unchecked_mut(i)) }; let r = unsafe { lib!(e.downcast_mut_unchecked::<T>()) }; std::mem::replace(r, T::new()) }
+                    12 => { assert!(i < vv.len(), "index out of range");
+                            let mut tv = unsafe { lib!(vv.downcast_mut_unchecked::<T>()) }; let r = unsafe { lib!(tv.get_unchecked_mut(i)) }; std::mem::replace(r, T::new()) }
+                    13 => { let mut tv = unsafe { lib!(vv.downcast_mut_unchecked::<T>()) }; let r = lib!(tv.at_mut(i)); std::mem::replace(r, T::new()) }
+                    _ => { let mut e = lib!(vv.at_mut(i)); let mut x = ManuallyDrop::new(T::new());
+                           let mut raw = unsafe { AnyValueRaw::new(NonNull::from(&mut *x).cast::<u8>(), std::mem::size_of::<T>(), TypeId::of::<T>()) };
+                           unsafe { lib!(any_vec::any_value::AnyValueTypelessMut::swap_unchecked(&mut *e, &mut raw)) }; ManuallyDrop::into_inner(x) }
                 };
                 ret.push(old.token());
                 drop(old);
@@ -1025,7 +1034,13 @@ impl<Tr: ?Sized + TrOps, M: BackOps> World<Tr, M> {
                     4 => { let b = lib!(vv.as_bytes()); if i < vv.len() && (i + 1) * sz <= b.len() { Some((tok_of_bytes::<T>(b[i * sz..].as_ptr()), 1, sz as u64)) } else { None } }
                     5 => lib!(vv.iter()).nth(i).map(|e| (lib!(e.downcast_ref::<T>()).unwrap().token(), (lib!(e.value_typeid()) == TypeId::of::<T>()) as u64, lib!(e.size()) as u64)),
                     6 => lib!(vv.downcast_ref::<T>().unwrap().iter()).nth(i).map(|x| (x.token(), 1, sz as u64)),
-                    _ => lib!(vv.get_mut(i)).map(|e| (lib!(e.downcast_ref::<T>()).unwrap().token(), (lib!(e.value_typeid()) == TypeId::of::<T>()) as u64, lib!(e.size()) as u64)),
+                    7 => lib!(vv.get_mut(i)).map(|e| (lib!(e.downcast_ref::<T>()).unwrap().token(), (lib!(e.value_typeid()) == TypeId::of::<T>()) as u64, lib!(e.size()) as u64)),
+                    // the unchecked accessors (the index / type preconditions are established by the harness)
+                    8 => if i < vv.len() { let e = unsafe { lib!(vv.get_unchecked(i)) }; Some((unsafe { lib!(e.downcast_ref_unchecked::<T>()) }.token(), (lib!(e.value_typeid()) == TypeId::of::<T>()) as u64, lib!(e.size()) as u64)) } else { None },
+                    9 => unsafe { lib!(vv.downcast_ref_unchecked::<T>()) }.get(i).map(|x| (x.token(), 1, sz as u64)),
+                    10 => if i < vv.len() { let tv = unsafe { lib!(vv.downcast_ref_unchecked::<T>()) }; Some((unsafe { lib!(tv.get_unchecked(i)) }.token(), 1, sz as u64)) } else { None },
+                    11 => if i < vv.len() { let mut e = unsafe { lib!(vv.get_unchecked_mut(i)) }; let t = unsafe { lib!(e.downcast_mut_unchecked::<T>()) }.token(); Some((t, 1, lib!(e.size()) as u64)) } else { None },
+                    _ => if i < vv.len() { let mut tv = unsafe { lib!(vv.downcast_mut_unchecked::<T>()) }; Some((unsafe { lib!(tv.get_unchecked_mut(i)) }.token(), 1, sz as u64)) } else { None },
                 };
                 match r {
                     None => out = 1,
